@@ -770,6 +770,15 @@ class World:
         masterapi.delete_apps(self.admin, [op['name']])
         self.dirty_since_cycle = True
 
+    def op_app_delete_quiet(self, op):
+        """An instance is taken out of /scheduled and the master has not been
+        told yet (its record under /placement is stale until then).  Whether
+        the OTHER recorded instances are reloaded does not depend on it."""
+        if self.zk.nodes.get(z.path.scheduled(op['name'])) is None:
+            return
+        masterapi.delete_apps(self.admin, [op['name']])
+        self.dirty_since_cycle = True
+
     def op_app_prio(self, op):
         if self.zk.nodes.get(z.path.scheduled(op['name'])) is None:
             return
@@ -961,7 +970,7 @@ class World:
             return
         strong = self.last_cycle_caught_up and all(
             kind in ('group', 'group_delete', 'advance', 'c11_probe',
-                     'drain', 'snap', 'process')
+                     'drain', 'snap', 'process', 'app_delete_quiet')
             for kind in self.ops_since_cycle) and not self.master_wrote()
         if strong:
             self.probes['restart_probes_after_group_change'] = \
@@ -1524,6 +1533,19 @@ class Generator:
             {'op': 'restart'}])
         return {'op': 'presence_down', 'name': name}
 
+    def g_undefined_server_failover(self, world):
+        """The definition of a server that holds instances is deleted (only
+        /servers/<name>) and the master fails over before it hears of it:
+        the new master does not know the server its predecessor placed on."""
+        stored = world.stored_placement()
+        servers = sorted({s for recs in stored.values() for s, _d in recs
+                          if world.zk.nodes.get(z.path.server(s))})
+        if not servers:
+            return None
+        self.follow.append({'op': 'restart', 'focus': True})
+        return {'op': 'srv_delete', 'name': self.rng.choice(servers),
+                'raw': True}
+
     def g_pending_start_then_down(self, world):
         """Instances are placed but have not reported running when the
         pending-start check notes them; then their server goes down and stays
@@ -1573,6 +1595,25 @@ class Generator:
             {'op': 'presence_down', 'name': name},
             {'op': 'drain'}, {'op': 'master_cycle'}])
         return {'op': 'presence_down', 'name': name}
+
+    def g_stale_record_failover(self, world):
+        """C11: an instance is deleted and the master fails over before it
+        hears of it: the stale record is dropped, every other recorded
+        instance of that server is reloaded."""
+        stored = world.stored_placement()
+        per_srv = {}
+        for app, recs in stored.items():
+            for srv, _d in recs:
+                per_srv.setdefault(srv, []).append(app)
+        crowded = sorted(s for s, apps in per_srv.items() if len(apps) >= 2)
+        if not crowded:
+            return None
+        victim = self.rng.choice(sorted(per_srv[self.rng.choice(crowded)]))
+        self.follow.extend([
+            {'op': 'master_cycle'},
+            {'op': 'app_delete_quiet', 'name': victim},
+            {'op': 'c11_probe'}])
+        return {'op': 'drain'}
 
     def g_probe_after_group(self, world):
         """C11: an identity group is changed and a fail-over happens before
@@ -1624,6 +1665,7 @@ OP_WEIGHTS = [
     ('failover_after_down', 3), ('identity_churn', 6), ('cell_bucket', 2),
     ('flap_with_reload', 2), ('zombie_write', 1), ('probe_after_group', 2),
     ('pending_start_then_down', 2), ('servers_reload_all', 1),
+    ('undefined_server_failover', 5), ('stale_record_failover', 3),
 ]
 
 
@@ -1924,6 +1966,10 @@ class MasterSim(enginemod.Engine):
         thorough = config.get('tier') == 'thorough'
         picks = list(cands) if thorough else \
             rng.sample(cands, min(len(cands), 2))
+        if not thorough:
+            # steps a scenario marked as the point of the exercise
+            focus = [i for i in cands if history[i].get('focus')]
+            picks = sorted(set(picks) | set(focus[:2]))
         rng2 = rngmod.Streams(seed).get('crashpoint2')
 
         def account(res, inside):
